@@ -63,6 +63,28 @@ Qed.
 Definition is_setup (p : phase_id) : bool := match p with PSetup => true | _ => false end.
 
 (** ** one instruction *)
+Lemma step_refines_env : forall d dirs full t md s ss,
+  R full d s ss ->
+  match step d dirs full (OEnv t md) s with
+  | SOk s' => exists ss', sstep dirs (OEnv t md) ss = Some ss' /\ R full d s' ss'
+  | SHardError s' => sstep dirs (OEnv t md) ss = None /\ s' = s
+  | SOutOfFuel => False
+  end.
+Proof.
+  intros d dirs full t md s ss HR. pose proof HR as (Hn & Ht & Hc & Ha). cbn [step sstep].
+  destruct (modify_abs d (st_nonact s) (ss_nonact ss) md Hn) as (en & Hmn & Hn').
+  destruct full.
+  + destruct (modify_abs d (st_act s) (ss_act ss) md (Ha eq_refl)) as (ea & Hma & Ha').
+    destruct t; cbn [appliers has_act has_non_act app apply_all]; unfold apply_act, apply_non_act; cbn [st_act st_nonact st_timeout st_cwd].
+    * rewrite Hma. cbn [st_act st_nonact st_timeout st_cwd]. rewrite Hmn. eexists. split; [reflexivity|]. repeat split; cbn; try assumption. intros _. exact Ha'.
+    * rewrite Hma. eexists. split; [reflexivity|]. repeat split; cbn; try assumption. intros _. exact Ha'.
+    * rewrite Hmn. eexists. split; [reflexivity|]. repeat split; cbn; try assumption.
+  + destruct t; cbn [appliers has_act has_non_act app apply_all]; unfold apply_non_act; cbn [st_act st_nonact st_timeout st_cwd].
+    * rewrite Hmn. eexists. split; [reflexivity|]. repeat split; cbn; try assumption; try discriminate.
+    * eexists. split; [reflexivity|]. repeat split; cbn; try assumption; try discriminate.
+    * rewrite Hmn. eexists. split; [reflexivity|]. repeat split; cbn; try assumption; try discriminate.
+Qed.
+
 Lemma step_refines : forall d dirs full o s ss,
   R full d s ss ->
   match step d dirs full o s with
@@ -72,37 +94,40 @@ Lemma step_refines : forall d dirs full o s ss,
   end.
 Proof.
   intros d dirs full o s ss HR. pose proof HR as (Hn & Ht & Hc & Ha).
-  destruct o as [t md | b suffix | t | b suffix | ]; cbn [step sstep].
+  destruct o as [t md | t n v | b suffix | t | b suffix | ].
   - (* env *)
-    destruct (modify_abs d (st_nonact s) (ss_nonact ss) md Hn) as (en & Hmn & Hn').
-    destruct full.
-    + destruct (modify_abs d (st_act s) (ss_act ss) md (Ha eq_refl)) as (ea & Hma & Ha').
-      destruct t; cbn [appliers has_act has_non_act app apply_all]; unfold apply_act, apply_non_act; cbn [st_act st_nonact st_timeout st_cwd].
-      * rewrite Hma. cbn [st_act st_nonact st_timeout st_cwd]. rewrite Hmn. eexists. split; [reflexivity|]. repeat split; cbn; try assumption. intros _. exact Ha'.
-      * rewrite Hma. eexists. split; [reflexivity|]. repeat split; cbn; try assumption. intros _. exact Ha'.
-      * rewrite Hmn. eexists. split; [reflexivity|]. repeat split; cbn; try assumption.
-    + destruct t; cbn [appliers has_act has_non_act app apply_all]; unfold apply_non_act; cbn [st_act st_nonact st_timeout st_cwd].
-      * rewrite Hmn. eexists. split; [reflexivity|]. repeat split; cbn; try assumption; try discriminate.
-      * eexists. split; [reflexivity|]. repeat split; cbn; try assumption; try discriminate.
-      * rewrite Hmn. eexists. split; [reflexivity|]. repeat split; cbn; try assumption; try discriminate.
+    apply step_refines_env. exact HR.
+  - (* env with a value computed by a program: as a constant value *)
+    change (step d dirs full (OEnvProg t n v) s) with (step d dirs full (OEnv t (MSet n v)) s).
+    change (sstep dirs (OEnvProg t n v) ss) with (sstep dirs (OEnv t (MSet n v)) ss).
+    apply step_refines_env. exact HR.
   - (* cd *)
+    cbn [step sstep].
     rewrite <- Hc. destruct (walk (base_dir (st_cwd s) b) suffix) as [dd|]; [|split; reflexivity].
     destruct (existsb (path_eqb dd) dirs); [|split; reflexivity].
     eexists. split; [reflexivity|]. repeat split; cbn; assumption.
   - (* timeout *)
-    eexists. split; [reflexivity|]. repeat split; cbn; assumption.
+    cbn [step sstep]. eexists. split; [reflexivity|]. repeat split; cbn; assumption.
   - (* a child process changing its own directory *)
-    eexists. split; [reflexivity|]. exact HR.
+    cbn [step sstep]. eexists. split; [reflexivity|]. exact HR.
   - (* probe *)
-    eexists. split; [reflexivity|]. exact HR.
+    cbn [step sstep]. eexists. split; [reflexivity|]. exact HR.
 Qed.
 
 Lemma obs_non_act_agrees : forall full d s ss p i,
   R full d s ss -> obs_agrees (spec_view (PtInstr p i) ss) (obs_non_act d s).
-Proof. intros full d s ss p i (Hn & Ht & Hc & _). repeat split; cbn; assumption. Qed.
+Proof. intros full d s ss p i (Hn & Ht & Hc & _). split; [intros _; exact Hn|]. split; cbn; assumption. Qed.
+
+Lemma obs_value_agrees : forall full d s ss p i aps k,
+  R full d s ss -> Forall (fun ob => obs_agrees (spec_view (PtInstr p i) ss) ob) (obs_value d k aps s).
+Proof.
+  intros full d s ss p i aps. induction aps as [|a aps IH]; intros k HR; cbn [obs_value]; constructor.
+  - destruct HR as (_ & Ht & Hc & _). split; [cbn; discriminate|]. split; cbn; assumption.
+  - apply IH. exact HR.
+Qed.
 
 Lemma obs_act_agrees : forall d s ss, R true d s ss -> obs_agrees (spec_view PtAct ss) (obs_act d s).
-Proof. intros d s ss (_ & Ht & Hc & Ha). repeat split; cbn; try assumption. apply Ha. reflexivity. Qed.
+Proof. intros d s ss (_ & Ht & Hc & Ha). split; [intros _; apply Ha; reflexivity|]. split; cbn; assumption. Qed.
 
 (** ** one phase *)
 Definition halted_of (r : status) : bool := match r with Halted => true | _ => false end.
@@ -124,9 +149,16 @@ Proof.
                 fst po = PtInstr p (idx + j) /\ (j < length (o :: ops))%nat /\
                 sfold dirs (firstn j (o :: ops)) ss = (ssj, false) /\
                 obs_agrees (spec_view (fst po) ssj) (snd po))
-              (match o with OProbe => [(PtInstr p idx, obs_non_act d s)] | _ => [] end)).
-    { destruct o; try (constructor; fail). constructor; [|constructor]. exists 0%nat, ss. cbn [fst snd firstn sfold length].
-      rewrite Nat.add_0_r. split; [reflexivity|]. split; [lia|]. split; [reflexivity|]. eapply obs_non_act_agrees. exact HR. }
+              (processes_of d p idx o s)).
+    { assert (Hone : forall ob, obs_agrees (spec_view (PtInstr p idx) ss) ob ->
+                exists j ssj, fst (PtInstr p idx, ob) = PtInstr p (idx + j) /\ (j < length (o :: ops))%nat /\
+                  sfold dirs (firstn j (o :: ops)) ss = (ssj, false) /\
+                  obs_agrees (spec_view (fst (PtInstr p idx, ob)) ssj) (snd (PtInstr p idx, ob))).
+      { intros ob Hob. exists 0%nat, ss. cbn [fst snd firstn sfold length]. rewrite Nat.add_0_r.
+        split; [reflexivity|]. split; [lia|]. split; [reflexivity|exact Hob]. }
+      destruct o; try (constructor; fail); cbn [processes_of].
+      - apply Forall_map. eapply Forall_impl; [|eapply obs_value_agrees; exact HR]. intros ob Hob. apply Hone. exact Hob.
+      - constructor; [|constructor]. apply Hone. eapply obs_non_act_agrees. exact HR. }
     pose proof (step_refines d dirs (is_setup p) o s ss HR) as Hstep.
     destruct (step d dirs (is_setup p) o s) as [s1 | s1 | ].
     + destruct Hstep as (ss1 & Hs1 & HR1).
